@@ -1,2 +1,8 @@
--- root of the `TracingModel` library
-import TracingModel.Core.DateTime
+-- root of the `TracingModel` library: every property file (so that `lake build` re-checks all of them)
+import TracingModel.Props.C01
+import TracingModel.Props.C02
+import TracingModel.Props.C05
+import TracingModel.Props.C06
+import TracingModel.Props.C19
+import TracingModel.Props.C20
+import TracingModel.AuditLib
